@@ -94,8 +94,8 @@ fn run_real(c: &RealCase) -> CaseResult {
     });
     match rx.recv_timeout(PROMPT + PROMPT) {
         Ok(Ok(r)) => r,
-        Ok(Err(p)) => Err(Fail::new("panic", format!("scenario {} panicked: {p}", c.scenario % 7))),
-        Err(_) => Err(Fail::new("not_prompt", format!("scenario {} did not come to an end within {:?} (a call or a destructor blocks although the tick interval should not matter)", c.scenario % 7, PROMPT + PROMPT))),
+        Ok(Err(p)) => Err(Fail::new("panic", format!("scenario {} panicked: {p}", c.scenario % 8))),
+        Err(_) => Err(Fail::new("not_prompt", format!("scenario {} did not come to an end within {:?} (a call or a destructor blocks although the tick interval should not matter)", c.scenario % 8, PROMPT + PROMPT))),
     }
 }
 
@@ -106,7 +106,7 @@ fn run_scenario(c: &RealCase) -> CaseResult {
     let hour = Duration::from_secs(3600);
     let delay = Duration::from_millis(c.delay_ms as u64 % 60);
     let mut v = Verdict::default();
-    match c.scenario % 7 {
+    match c.scenario % 8 {
         0 => {
             pb.enable_steady_tick(Duration::from_millis(1));
             std::thread::sleep(Duration::from_millis(150));
@@ -156,6 +156,33 @@ fn run_scenario(c: &RealCase) -> CaseResult {
             v.label("last_drop");
             v.nontrivial = true;
             return Ok(v);
+        }
+        7 => {
+            // steady tick enabled while the bar has no terminal; it gets one later and must be animated
+            // there (through a handle obtained by downgrade() + upgrade() when manual_ticks is odd)
+            let hidden = ProgressBar::with_draw_target(Some(10), ProgressDrawTarget::hidden());
+            hidden.set_style(ProgressStyle::with_template("{spinner} {pos}").unwrap());
+            let d = Duration::from_millis(1 + c.manual_ticks as u64 % 4);
+            let h = if c.manual_ticks % 2 == 1 { hidden.downgrade().upgrade().expect("strong handle exists") } else { hidden.clone() };
+            h.enable_steady_tick(d);
+            std::thread::sleep(Duration::from_millis(20) + delay);
+            hidden.set_draw_target(ProgressDrawTarget::term_like(Box::new(spy.clone())));
+            let n = spy.flushes.load(Ordering::SeqCst);
+            let t0 = Instant::now();
+            while spy.flushes.load(Ordering::SeqCst) < n + 3 && t0.elapsed() < Duration::from_secs(10) {
+                std::thread::sleep(Duration::from_millis(1));
+            }
+            let m = spy.flushes.load(Ordering::SeqCst);
+            ensure!(m >= n + 3, "no_steady_redraw", "steady tick ({d:?}) was enabled while the bar was hidden; after set_draw_target(visible) it was redrawn only {} time(s) in 10 s", m - n);
+            // while the ticker is installed a manual tick through any handle of the bar paints nothing
+            let p2 = hidden.clone();
+            prompt("disable_steady_tick()", move || p2.disable_steady_tick())?;
+            let n = spy.flushes.load(Ordering::SeqCst);
+            hidden.tick();
+            ensure!(spy.flushes.load(Ordering::SeqCst) == n + 1, "tick_after_disable", "tick() after disable_steady_tick() painted no frame");
+            v.label("ticker_enabled_while_hidden_then_shown");
+            drop(h);
+            drop(hidden);
         }
         6 => {
             // a bar that is finished, reset and ticked steadily again (same interval as before)
@@ -207,11 +234,11 @@ pub fn property() -> Property {
         parts: vec![Box::new(Gen::<RealCase> {
             name: "real_threads",
             rule: "real threads: a 1 ms ticker keeps painting without manual ticks; with a 1 h ticker, disable / replace / finish+drop / last drop return promptly (the stopping call is issued 0-59 ms after enable, the terminal's flush takes 0-39 ms, so the stop lands before, during or after the ticker's first draw) manual tick() calls paint nothing while the ticker is installed, and a bar that was finished, reset and given the same steady tick again is redrawn again",
-            strategy: |_| (0u8..7, any::<u8>(), any::<u8>(), 0u8..8).prop_map(|(scenario, delay_ms, slow_flush_ms, manual_ticks)| RealCase { scenario, delay_ms, slow_flush_ms, manual_ticks }).boxed(),
-            cases: |t| t.pick(8, 300),
+            strategy: |_| (0u8..8, any::<u8>(), any::<u8>(), 0u8..8).prop_map(|(scenario, delay_ms, slow_flush_ms, manual_ticks)| RealCase { scenario, delay_ms, slow_flush_ms, manual_ticks }).boxed(),
+            cases: |t| t.pick(10, 320),
             run: run_real,
             signature: no_signature,
-            essential: &["keeps_redrawing", "disable", "replace", "finish_then_drop", "last_drop", "manual_ticks_ignored", "finish_reset_enable_again"],
+            essential: &["keeps_redrawing", "disable", "replace", "finish_then_drop", "last_drop", "manual_ticks_ignored", "finish_reset_enable_again", "ticker_enabled_while_hidden_then_shown"],
             workers: 8,
             decode: None,
         })],
